@@ -7,7 +7,8 @@ export CARGO_NET_OFFLINE=true
 mkdir -p evidence replays .tmp
 ( cd coq && coq_makefile -f _CoqProject -o Makefile >/dev/null && timeout 3000 make -j16 2>&1 | grep -v '^Closed under\|^COQC\|^COQDEP' | tail -20 )
 ( cd ocaml && ./build.sh )
-( cd harness && cp /repo/Cargo.lock Cargo.lock 2>/dev/null || true
+REPO=${CC_REPO:-/repo}
+( cd harness && sed -i "s#path = \"[^\"]*\"#path = \"$REPO\"#" Cargo.toml && cp $REPO/Cargo.lock Cargo.lock 2>/dev/null || true
   RUSTFLAGS="--cfg cosmian_cover_crypt_verif" cargo build --release --offline --target-dir target 2>&1 | tail -2
   RUSTFLAGS="--cfg cosmian_cover_crypt_verif" cargo build --release --offline --target-dir target-alt --no-default-features --features cfg-alt 2>&1 | tail -2 )
 echo setup done
